@@ -37,9 +37,39 @@ def run(tier):
     with open(jp, "w") as fh:
         json.dump({"chains": jobs}, fh)
     p = vlib.run_bin(hz, ["igamc-trace", jp, op], timeout=1200)
+    crashed_events = []
     if p.returncode != 0:
-        raise vlib.InfraError("igamc-trace failed: " + p.stderr[-800:])
-    events = vlib.read_ndjson(op)
+        # the function under test may have killed the process (unbounded recursion is not recoverable in Go): find the chain by
+        # streaming the events, then run that chain alone; only a reproduced crash of the real code is a verdict
+        remaining = list(jobs)
+        collected = []
+        for attempt in range(4):
+            with open(jp, "w") as fh:
+                json.dump({"chains": remaining, "stream": True}, fh)
+            if os.path.exists(op):
+                os.remove(op)
+            p2 = vlib.run_bin(hz, ["igamc-trace", jp, op], timeout=1200)
+            evs = vlib.read_ndjson(op) if os.path.exists(op) else []
+            collected += evs
+            if p2.returncode == 0:
+                break
+            if getattr(p2, "timed_out", False) or len(evs) >= len(remaining):
+                raise vlib.InfraError("igamc-trace failed: " + (p2.stderr or "")[-800:])
+            culprit = remaining[len(evs)]
+            with open(jp, "w") as fh:
+                json.dump({"chains": [culprit], "stream": True}, fh)
+            p3 = vlib.run_bin(hz, ["igamc-trace", jp, op + ".one"], timeout=600)
+            if p3.returncode == 0:
+                raise vlib.InfraError("igamc-trace crash not reproducible on chain a2=%s: %s" % (culprit["a2"], (p2.stderr or "")[-600:]))
+            head = "\n".join((p3.stderr or "").splitlines()[:12])
+            run.violation({"kind": "crash", "a2": culprit["a2"]}, {"cmd": "igamc-trace", "chain": culprit, "stderr_head": head[:2000],
+                                                                   "why": "the process evaluating this chain dies (fatal error / unrecoverable panic in Igamc)"})
+            remaining = remaining[len(evs) + 1:]
+            if not remaining:
+                break
+        events = collected
+    else:
+        events = vlib.read_ndjson(op)
     for e in events:
         if e.get("panic"):
             run.violation({"kind": "panic", "a2": e["a2"]}, {"cmd": "igamc-trace", "chain": chains[e["a2"]]})
